@@ -22,7 +22,7 @@ def canon(vt, v):
 
 
 DECOY = [False]
-_SHORT = {'f': 'g', 'o': 'q', 'p': 'r', 'v': 'w', 'x': 'y'}
+_SHORT = {'f': 'g', 'o': 'q', 'p': 'r', 'v': 'w', 'x': 'y'}  # (decoy long names get an x appended: 'o' -> 'ox')
 
 
 def LN(l):
@@ -211,6 +211,10 @@ def shapes():
         ('prod(optional(sum(arg,unit_switch)),arg_s)', prod(optional(sum_('lg', A(), usw('lb', 'f', 'flag'))), A('le', 'Str'))),
         ('prod(many(sum(arg,option)),many(arg_s))', prod(many(sum_('lg', A(), opt_o())), many(A('le', 'Str')))),
         ('prod(optional(sum(option_u,arg_color)),many(arg_s))', prod(optional(sum_('lg', opt_o('lc', 'Unsigned'), A('la', 'Color'))), many(A('le', 'Str')))),
+        # the SAME letters as a long option name in one alternative and as a short flag name in the other: '-o' is a flag
+        # and never takes the next token as its value, '--o' is the option
+        ('sum(option_long_o,prod(arg_s,switch_short_o))', sum_('lg', opt('lc', '', 'o', 'Str'), prod(A('la', 'Str'), sw('lb', 'o', 'other')))),
+        ('sum(prod(arg_s,switch_short_o),option_long_o)', sum_('lg', prod(A('la', 'Str'), sw('lb', 'o', 'other')), opt('lc', '', 'o', 'Str'))),
         ('commands', cmds()),
         ('optional(commands)', optional(cmds())),
         ('commands(switch;c1:prod(switch,arg);c2:optional(option))', commands(sw('lb', 'v', 'verbose'), [('c1', 't1', prod(sw('lf', 'f', 'flag'), A())), ('c2', 't2', optional(opt_o()))])),
